@@ -106,10 +106,15 @@ def write_sim(ctx, prefix, init_label, paths):
 
 def run(ctx):
     import vlib
-    os.environ.setdefault("VERIF_TLC_HEAP", "4g")
+    os.environ.setdefault("VERIF_TLC_HEAP", "2g" if ctx.quick() else "3g")
     ctx.build()
     quick = ctx.quick()
-    pool = concurrent.futures.ThreadPoolExecutor(4)
+    pool = concurrent.futures.ThreadPoolExecutor(8)
+    # the design runs go on in a second thread; ctx.tlc derives its -metadir from the module name and the millisecond,
+    # so the two threads use differently named (otherwise identical) MC modules
+    src = open(os.path.join(ctx.specdir, "MCCallFrames.tla")).read()
+    with open(os.path.join(ctx.specdir, "MCCallFramesG.tla"), "w") as fh:
+        fh.write(src.replace("MODULE MCCallFrames", "MODULE MCCallFramesG"))
 
     # ---- design side: the clauses hold on the model; the two deviation flags are negative controls
     def design():
@@ -128,37 +133,56 @@ def run(ctx):
                 raise vlib.Broken("negative control %s: expected a violation of %s, got %s\n%s" % (cfg, want, neg["inv"], neg["out"][-1500:]))
     fut_design = pool.submit(design)
 
-    # ---- spec -> code: complete behaviours covering every edge of the small state graph
-    dot = ctx.path("callframes.dot")
-    ctx.tlc_exhaustive("MCCallFrames", "MCCallFrames_graph.cfg", timeout=600, dump=dot, workers=4)
-    init_label, paths, nedges = path_cover(dot, ctx.seed)
-    os.remove(dot)
-    total = len(paths)
-    if quick:
-        random.Random(ctx.seed).shuffle(paths)
-        paths = paths[:600]
-    glob1 = write_sim(ctx, "cover", init_label, paths)
-    ctx.log("state graph: %d edges covered by %d complete behaviours, replaying %d" % (nedges, total, len(paths)))
-    files, summ = ctx.replay("callframes", sim=glob1, shards=16, name="callframes-cover")
-    ctx.extra["transitions_in_graph"] = nedges
-    ctx.extra["cover_behaviours_total"] = total
-    ctx.extra["cover_behaviours_replayed"] = len(paths)
-    ctx.cov["samples"] = summ["samples"]
+    # ---- spec -> code: complete behaviours covering every edge of the small state graph(s)
+    files, summ = [], None
+    graphs = [("MCCallFrames_graph.cfg", "cover", 600 if quick else 0)]
+    if not quick:
+        graphs.append(("MCCallFrames_graph4.cfg", "cover4", 25000))     # a step deeper, 3 call kinds, no value
+    for cfg, name, cap in graphs:
+        dot = ctx.path(name + ".dot")
+        ctx.tlc_exhaustive("MCCallFramesG", cfg, timeout=900, dump=dot, workers=4)
+        init_label, paths, nedges = path_cover(dot, ctx.seed)
+        os.remove(dot)
+        total = len(paths)
+        if cap and total > cap:
+            random.Random(ctx.seed).shuffle(paths)
+            paths = paths[:cap]
+        g = write_sim(ctx, name, init_label, paths)
+        ctx.log("state graph %s: %d edges covered by %d complete behaviours, replaying %d" % (cfg, nedges, total, len(paths)))
+        fs, sm = ctx.replay("callframes", sim=g, shards=16, name="callframes-" + name)
+        files += fs
+        ctx.extra.setdefault("graph_covers", []).append(dict(cfg=cfg, transitions_in_graph=nedges, cover_behaviours_total=total,
+                                                             cover_behaviours_replayed=len(paths)))
+        if summ is None:
+            summ = sm
+            ctx.cov["samples"] = sm["samples"]
+            ctx.extra["transitions_in_graph"] = nedges
+            ctx.extra["distinct_transitions_replayed"] = nedges if len(paths) == total else None
+        else:
+            for k, v in sm["action_counts"].items():
+                summ["action_counts"][k] = summ["action_counts"].get(k, 0) + v
     ctx.cov["exhaustive"] = not quick
 
     # ---- deeper behaviours of the big configuration by simulation
-    nsim = 300 if quick else 6000
-    glob2 = ctx.tlc_simulate("MCCallFrames", "MCCallFrames_sim.cfg", nsim, 80, "deep", timeout=900)
+    nsim = 300 if quick else 8000
+    glob2 = ctx.tlc_simulate("MCCallFramesG", "MCCallFrames_sim.cfg", nsim, 80, "deep", timeout=900)
     files2, summ2 = ctx.replay("callframes", sim=glob2, shards=16, name="callframes-sim")
 
     # ---- recording drivers: seeded random trees beyond the model's bounds; arbitrary programs
-    trees = ctx.path("traces", "trees.ndjson")
-    rnd = ctx.path("traces", "rand.ndjson")
     scr = {"VERIF_SCRATCH_DIR": ctx.path("work", "drivers", ".keep")[:-6]}
-    f1 = pool.submit(ctx.drive, "callframes-trees", ["-out", trees, "-seed", ctx.seed, "-n", 200 if quick else 4000, "-depth", 4 if quick else 5], 900, scr)
-    f2 = pool.submit(ctx.drive, "callframes-rand", ["-out", rnd, "-seed", ctx.seed, "-n", 800 if quick else 20000], 900, scr)
-    f1.result(); f2.result()
-
+    ntree, nrand, par = (200, 800, 1) if quick else (4000, 12000, 6)
+    futs, tree_files, rand_files = [], [], []
+    for k in range(par):
+        tf, rf = ctx.path("traces", "trees.%d.ndjson" % k), ctx.path("traces", "rand.%d.ndjson" % k)
+        tree_files.append(tf); rand_files.append(rf)
+        futs.append(pool.submit(ctx.drive, "callframes-trees", ["-out", tf, "-seed", ctx.seed * 100 + k, "-n", ntree // par, "-depth", 4 if quick else 5], 1800, scr))
+        futs.append(pool.submit(ctx.drive, "callframes-rand", ["-out", rf, "-seed", ctx.seed * 100 + k, "-n", nrand // par], 1800, scr))
+    for f in futs:
+        f.result()
+    rnd = ctx.path("traces", "rand.ndjson")
+    with open(rnd, "w") as fh:
+        for rf in rand_files:
+            fh.write(open(rf).read())
     # vacuity gates on what was really executed
     deepest, kinds, crashes = 0, collections.Counter(), 0
     for ln in open(rnd):
@@ -166,7 +190,7 @@ def run(ctx):
         if r.get("ev") == "Rand":
             kinds[r["kind"].split(":")[0].rstrip("0123456789")] += 1
             deepest = max(deepest, r["r1"]["maxd"])
-    if deepest != 1024:
+    if deepest < 1024:
         raise vlib.Broken("vacuity: the recursion driver reached depth %d, not the limit 1024" % deepest)
     ctx.extra["deepest_real_call_depth"] = deepest
     ctx.extra["arbitrary_programs"] = dict(kinds)
@@ -178,13 +202,32 @@ def run(ctx):
         if not acts[a]:
             raise vlib.Broken("vacuity: action %s never replayed" % a)
 
+    # what the real executions looked like (evidence only, no verdict)
+    st = collections.Counter()
+    for f in files + files2 + tree_files:
+        for ln in open(f):
+            if '"run":true' not in ln:
+                continue
+            r = json.loads(ln)
+            st["programs"] += 1
+            for i, x in enumerate(r["runs"]):
+                st["executions"] += 1
+                if x["crash"]:
+                    st["executions_panicked"] += 1
+                elif i >= 2:
+                    st["starved_executions_" + ("ok" if x["st"] == "ok" else "failed")] += 1
+                st["frame_events"] += len(x["obs"])
+    ctx.extra["real_executions"] = dict(st)
+    if not st["starved_executions_failed"] or not st["starved_executions_ok"]:
+        raise vlib.Broken("vacuity: starved executions did not both fail and survive: %s" % dict(st))
+
     # ---- code -> spec: TLC re-executes what the real EVM did
     if quick:
-        ctx.validate("TraceCallFrames", "TraceCallFrames.cfg", files + files2 + [trees],
+        ctx.validate("TraceCallFrames", "TraceCallFrames.cfg", files + files2 + tree_files,
                      what="edge-cover behaviours + simulated behaviours + seeded random trees", timeout=1800)
     else:
         ctx.validate("TraceCallFrames", "TraceCallFrames.cfg", files, what="edge cover of the state graph", timeout=3000)
-        ctx.validate("TraceCallFrames", "TraceCallFrames.cfg", files2 + [trees], what="simulated behaviours + seeded random trees", timeout=3000)
+        ctx.validate("TraceCallFrames", "TraceCallFrames.cfg", files2 + tree_files, what="simulated behaviours + seeded random trees", timeout=3000)
     ctx.validate("TraceCallFrames", "TraceCallFrames.cfg", [rnd], what="byte strings, opcode soups, precompiles, creations, recursion",
                  timeout=1800, count_behaviours=False)
     fut_design.result()
